@@ -31,12 +31,32 @@ static void put_hash(KSI_DataHash *h) {
 	if (h == NULL || KSI_DataHash_getImprint(h, &p, &n) != KSI_OK) { putchar('-'); return; }
 	puthex(stdout, p, n);
 }
-static KSI_MetaData *mk_md(const char *cidhex) {
-	size_t n; unsigned char *b = unhex(cidhex, &n); KSI_MetaData *md = NULL; KSI_Utf8String *s = NULL;
+/* <cidhex>[,<machine id hex|->,<sequence number|->,<request time in micros|->] */
+static KSI_MetaData *mk_md(const char *spec) {
+	char tmp[2048]; char *f[4] = {NULL, NULL, NULL, NULL}; int nf = 0; char *p;
+	size_t n; unsigned char *b; KSI_MetaData *md = NULL; KSI_Utf8String *s = NULL;
+	snprintf(tmp, sizeof(tmp), "%s", spec);
+	for (p = tmp; nf < 4; ) { f[nf++] = p; p = strchr(p, ','); if (!p) break; *p++ = 0; }
+	b = unhex(f[0], &n);
 	if (KSI_MetaData_new(ctx, &md) == KSI_OK && KSI_Utf8String_new(ctx, (const char *)b, n, &s) == KSI_OK) KSI_MetaData_setClientId(md, s);
 	else { KSI_MetaData_free(md); md = NULL; }
 	KSI_Utf8String_free(s);   /* the setter took its own reference */
 	free(b);
+	if (md != NULL && nf > 1 && strcmp(f[1], "-")) {
+		KSI_Utf8String *m = NULL; b = unhex(f[1], &n);
+		if (KSI_Utf8String_new(ctx, (const char *)b, n, &m) == KSI_OK) KSI_MetaData_setMachineId(md, m);
+		KSI_Utf8String_free(m); free(b);
+	}
+	if (md != NULL && nf > 2 && strcmp(f[2], "-")) {
+		KSI_Integer *v = NULL;
+		if (KSI_Integer_new(ctx, strtoull(f[2], NULL, 10), &v) == KSI_OK) KSI_MetaData_setSequenceNr(md, v);
+		KSI_Integer_free(v);
+	}
+	if (md != NULL && nf > 3 && strcmp(f[3], "-")) {
+		KSI_Integer *v = NULL;
+		if (KSI_Integer_new(ctx, strtoull(f[3], NULL, 10), &v) == KSI_OK) KSI_MetaData_setRequestTimeInMicros(md, v);
+		KSI_Integer_free(v);
+	}
 	return md;
 }
 
@@ -113,6 +133,7 @@ static void do_line(char *work, const char *orig) {
 		printf(" -");
 		g_root = tb->rootNode ? tb->rootNode->hash : NULL; g_rootLevel = tb->rootNode ? tb->rootNode->level : 0;
 		if (tb->rootNode) for (i = 0; i < nl; i++) dump_leaf(i, lh[i]);
+		else if (nl > 0) { printf(" U"); for (i = 0; i < nl; i++) dump_leaf(i, lh[i]); }   /* open forest: chains up to each sub tree's top */
 		for (i = 0; i < nl; i++) KSI_TreeLeafHandle_free(lh[i]);
 		KSI_TreeBuilder_free(tb);
 	} else if (n == 5 && !strcmp(w[0], "bs")) {
@@ -146,6 +167,7 @@ static void do_line(char *work, const char *orig) {
 		putchar(' '); put_hash(bs->prevLeaf);
 		g_root = bs->builder->rootNode ? bs->builder->rootNode->hash : NULL; g_rootLevel = bs->builder->rootNode ? bs->builder->rootNode->level : 0;
 		if (bs->builder->rootNode) for (i = 0; i < nl; i++) dump_leaf(i, bh[i]->leafHandle);
+		else if (nl > 0) { printf(" U"); for (i = 0; i < nl; i++) dump_leaf(i, bh[i]->leafHandle); }
 		if (bs->builder->rootNode && bs->builder->rootNode->hash && nl > 0 && bs->signature == NULL && bs->builder->rootNode->level < 255) {   /* nothing can be aggregated above level 255 */
 			/* the aggregator's answer for (root, root level): one chain, one left link, no calendar yet */
 			unsigned char raw[512], chain[400], link[80]; size_t cl = 0, ll = 0, rl = 0; const unsigned char *imp = NULL; size_t il = 0; KSI_Signature *rootSig = NULL;
